@@ -408,6 +408,7 @@ inductive Err
   | component      -- `__is_component` wrapper (llama-index components are outside the model)
   | notObject      -- envelope input is not a JSON object
   | validation     -- `EventValidationError`
+  | laxValidation  -- `EventValidationError` caused by `laxOrInvalid` (or acceptance after a lax coercion; not modelled)
   | exception (e : XErr)
   | badTag         -- discriminated union: tag missing / unknown
   | notModel       -- an event slot decoded to something that is not a model instance
@@ -426,6 +427,7 @@ def Err.rank : Err → Nat
   | .laxOrInvalid => 1
   | .badTag => 1
   | .validation => 1
+  | .laxValidation => 1
   | .envelopeInvalid => 1
   | .notModel => 0
   | _ => 2
@@ -656,7 +658,7 @@ everything else propagates as it is -/
 def liftValidation : Except Err Inst → Except Err Inst
   | .error .notDict => .error .validation
   | .error .missing => .error .validation
-  | .error .laxOrInvalid => .error .validation
+  | .error .laxOrInvalid => .error .laxValidation
   | r => r
 
 /-- `EventEnvelope.parse(client_data, registry, explicit_event)` for already-parsed JSON -/
